@@ -130,6 +130,9 @@ func c14(c *Ctx) {
 	if ns := staleRule(c, "codecs.(*H265Payloader).Payload"); ns == 0 {
 		r.Infof("STRUCT.stale: no reader/writer closure pair found in H265Payloader.Payload; rule not decided")
 	}
+	if k := emitOrderRule(c, "codecs.(*H265Payloader).Payload"); k == 0 {
+		r.Infof("STRUCT.emitorder: H265Payloader.Payload is not built from a flush closure and a callback that appends to the result: not decided")
+	}
 	na := 0
 	restructured := false
 	for _, nme := range []string{"codecs.(*H265AggregationPacket).Unmarshal", "codecs.(*H265SingleNALUnitPacket).Unmarshal", "codecs.(*H265FragmentationUnitPacket).Unmarshal", "codecs.(*H265PACIPacket).Unmarshal"} {
